@@ -445,6 +445,38 @@ func init() {
 				}
 			}
 		}
+		// (d') the container's outer length field together with each inner one (a consistency check between two
+		// declared lengths proves nothing about the data present), and every declared ICC tag type paired with
+		// very small tag sizes (a type handler indexing past the type signature and reserved word)
+		bigs := []uint64{0x7fffffff, 0xffffffff, 0x20000000, 0x7ffffff7}
+		for _, s := range seeds {
+			if s.fmt != "webp" && s.fmt != "png" || len(s.data) > 100000 {
+				continue
+			}
+			var fs []field
+			if s.fmt == "webp" {
+				fs = webpFields(s.data)
+			} else {
+				fs = pngFields(s.data)
+			}
+			for i := 1; i < len(fs) && len(fs) > 1; i++ {
+				for _, v1 := range bigs[:2] {
+					for _, v2 := range bigs {
+						d := setField(setField(s.data, fs[0], v1), fs[i], v2)
+						run("outer-inner-pair", fmt.Sprintf("%s@%d=%#x,%s@%d=%#x", fs[0].what, fs[0].off, v1, fs[i].what, fs[i].off, v2), s, d)
+					}
+				}
+			}
+		}
+		for _, typ := range []string{"text", "desc", "mluc", "sig ", "XYZ ", "curv", "para", "sf32", "ui16", "data", "dtim", "\x00\x00\x00\x00"} {
+			for size := 0; size <= 20; size++ {
+				hdr := randBytes(rng, 128)
+				copy(hdr[36:], "acsp")
+				body := append([]byte(typ), make([]byte, 16)...)[:size]
+				p := layoutProfile(rng, hdr, []genTag{{0x64657363, body}}, false)
+				run("tag-type-size", fmt.Sprintf("desc tag of type %q and size %d", typ, size), seed{"gen:icc-desc-type-size", "icc", p}, p)
+			}
+		}
 		// (e) a format's first bytes followed by a very long run of one byte value (fill bytes, zero padding):
 		// nesting or recursion that grows with the input shows up only here
 		runLens := []int{70000, 3 << 20}
